@@ -45,6 +45,8 @@ func checkC07(p *core.Program, r *core.Report) {
 	c07R10(p, r)
 	r.Rule("R11", "the search without a parent is the fallback for a parent that was not named: in a location test, a FindLocationsFuzzy call with a nil parent at a level below the top is made only when the text that names the level directly above — the text of the lookup at that level in the same test — is empty")
 	c07R11(p, r)
+	r.Rule("R12", "what a router test narrows down it then uses: in flows/routers and flows/routers/cases no slice, map or composite value is built and then never read (a local that is assigned a narrowed list — only the top intent — while the loop after it ranges over the full list again makes has_top_intent behave like has_intent)")
+	c07R12(p, r)
 	r.Rule("R8", "calendar days are taken in one timezone: within a router test, the values handed to dates.ExtractDate agree on being converted with In(env.Timezone()) first (sibling agreement between the operand's date and the argument's date; a day compared across two zones makes an earlier case miss and a later one win)")
 	r.Rule("R7", "timeout routing is chosen for the run the timeout was applied to: the condition under which the engine calls Router.RouteTimeout instead of Route traces back, through parameters and every call site, only to a type test of the resume handed to the resuming function (a parameter) or to the constant false — never to session state such as the sprint's current resume, which is still a timeout when a parent run is resumed later in the same sprint")
 	r.Assumption("each test function matches what its documentation says; localisation of arguments is C18")
@@ -927,4 +929,44 @@ func c07R11(p *core.Program, r *core.Report) {
 	}
 	r.Count("parentless_fallback_lookups", n)
 	r.Require("parentless_fallback_lookups", n, 1)
+}
+
+// ---------------------------------------------------------------------------------------------- R12
+
+func c07R12(p *core.Program, r *core.Report) {
+	n := 0
+	for _, fn := range p.ModuleFunctions() {
+		rel := core.RelPkg(core.FuncPkgPath(fn))
+		if (rel != "flows/routers" && rel != "flows/routers/cases") || p.IsTestFile(fn.Pos()) || fn.Synthetic != "" {
+			continue
+		}
+		ord := 0
+		core.EachInstr(fn, false, func(_ *ssa.Function, in ssa.Instruction) {
+			v, ok := in.(ssa.Value)
+			if !ok {
+				return
+			}
+			switch in.(type) {
+			case *ssa.Slice, *ssa.MakeSlice, *ssa.MakeMap:
+			default:
+				return
+			}
+			n++
+			used := false
+			if refs := v.Referrers(); refs != nil {
+				for _, ref := range *refs {
+					if _, isDbg := ref.(*ssa.DebugRef); !isDbg {
+						used = true
+					}
+				}
+			}
+			if used {
+				return
+			}
+			ord++
+			r.Bad("R12", fmt.Sprintf("%s/built-but-never-read#%d", core.FuncName(fn), ord), p.Pos(in.Pos()), "a "+core.ShortType(v.Type())+" is built here and never read: the variable it was assigned to is not the one the code after it uses")
+		})
+	}
+	r.Count("router_built_values", n)
+	r.Require("router_built_values", n, 10)
 }
